@@ -36,6 +36,9 @@ func runC03(c *Ctx) {
 	// verifier delegates to accepts only within the stated bounds (the rules of C06.R1)
 	if vac := c.Anchor("pkg/consensus.(*Executer).verifyAggregateCommit"); vac != nil {
 		checkAggregateCommitVerifier(c, "C03.A", vac)
+		// … and credits each aggregation bit with the weight of the validator whose key sits at that
+		// position (an under-weight commit must not certify a block): the alignment rules of C06.R3
+		c.MinInstances("C03.A weights-follow-keys", c.borrowRule(runC06, "C06", "R3 keys-weights-aligned", "C03.A weights-follow-keys", nil), 1)
 	}
 	// the generator key a signature is checked against and the validatorsHash a header must
 	// carry are the ones the application set last: skipping the update is licensed only by a
